@@ -210,3 +210,18 @@ func isBytesBuffer(r io.Reader) bool {
 //@   ensures err == nil ==> __called("Client.startTLS") && !__failed("Client.startTLS") && __called("Client.State") && __result("Client.State") == int(imap.ConnStateNotAuthenticated)
 //@   ensures err != nil ==> result == nil
 var _ net.Conn
+
+// COPYUID: a delivered response code never carries an open-ended set, so
+// CopyData.SourceUIDs/DestUIDs can always be enumerated.
+//
+//@ func readRespCodeCopyUID(dec *imapwire.Decoder) (uidValidity uint32, srcUIDs, dstUIDs imap.UIDSet, err error)
+//@   props C11:post,pre@call
+//@   ensures err == nil ==> !imap.RawDynamicUID(srcUIDs) && !imap.RawDynamicUID(dstUIDs)
+
+// ESEARCH: an ALL result that is delivered is never open-ended.
+//
+//@ func readESearchResponse(dec *imapwire.Decoder) (tag string, data *imap.SearchData, err error)
+//@   props C11:post,pre@call,inv-init,inv-step
+//@   ensures err == nil && data != nil ==> !imap.DynamicNumSet(data.All)
+//@   loop 0 locals (data *imap.SearchData)
+//@   loop 0 invariant data != nil && !imap.DynamicNumSet(data.All)
